@@ -148,18 +148,28 @@ def gen_opcodes() -> str:
     )
 
 
+def _names(obj, what: str) -> list[str]:
+    """A collection of names used for membership tests only (list, tuple, set, frozenset, dict keys ...): its sorted
+    members.  Anything else is refused (fail closed)."""
+    _expect(isinstance(obj, (list, tuple, set, frozenset)) or hasattr(obj, "keys") or type(obj).__name__ == "dict_keys", what)
+    names = sorted(set(obj))
+    for k in names:
+        _expect(isinstance(k, str), what + " entry")
+    return names
+
+
 def gen_lexicon() -> str:
+    from a816.cpu import cpu_65c816 as cpu
     from a816.parse import scanner_states as ss
-    _expect(isinstance(ss.KEYWORDS, set), "KEYWORDS")
-    kws = sorted(ss.KEYWORDS)
-    for k in kws:
-        _expect(isinstance(k, str), "keyword")
-    _expect(isinstance(ss.opcodes_without_operand, list), "opcodes_without_operand")
+    kws = _names(ss.KEYWORDS, "KEYWORDS")
+    # the scanner accepts as a mnemonic what the opcode table lists (a module-level alias of its keys may or may not exist)
+    mns = _names(getattr(ss, "opcodes", None) if getattr(ss, "opcodes", None) is not None else cpu.snes_opcode_table, "mnemonics")
+    naked = _names(ss.opcodes_without_operand, "opcodes_without_operand")
     return (
         "From A816 Require Import Base.Prelude.\nOpen Scope Z_scope.\n"
         f"Definition keywords : list str := {C.clist(kws, C.cstr)}.\n"
-        f"Definition mnemonics : list str := {C.clist(list(ss.opcodes), C.cstr)}.\n"
-        f"Definition mnemonics_without_operand : list str := {C.clist(ss.opcodes_without_operand, C.cstr)}.\n"
+        f"Definition mnemonics : list str := {C.clist(mns, C.cstr)}.\n"
+        f"Definition mnemonics_without_operand : list str := {C.clist(naked, C.cstr)}.\n"
     )
 
 
